@@ -234,7 +234,7 @@ pub fn size_classes(thorough: bool) -> Vec<usize> {
     if thorough {
         vec![4, 5, 7, 8, 9, 12, 15, 16, 17, 24, 31, 32, 33, 63, 64, 65, 100, 127, 128, 129, 255, 256, 257, 1000]
     } else {
-        vec![5, 8, 9, 16, 17, 32, 33, 64, 65, 129, 257]
+        vec![5, 8, 9, 16, 17, 32, 33, 64, 65, 129, 255, 256, 257]
     }
 }
 
@@ -340,4 +340,72 @@ pub fn path_fetches(payload: &Value) -> Vec<(&'static str, Value, Value)> {
         ("whole", json!({"var": ""}), payload.clone()),
         ("long-key", json!({"var": "order.shipping.address.line2"}), json!({"order": {"shipping": {"address": {"line1": "decoy", "line2": payload}}}})),
     ]
+}
+
+/// Magnitude ladder: for every integer-width boundary 2^k (k = 7..128, and the f64 exponent range
+/// beyond) the power itself, its two neighbouring doubles and - while they are exact - the
+/// neighbouring integers, plus powers of ten on both sides of every boundary, in both signs.
+/// Any representation change "number -> fixed-width key" (i32, i64, u64, i128, u128, f32)
+/// conflates or reorders two distinct members of the ladder.
+pub fn magnitude_ladder() -> Vec<Value> {
+    let mut fs: Vec<f64> = Vec::new();
+    for k in [7i32, 8, 15, 16, 23, 24, 31, 32, 52, 53, 63, 64, 65, 100, 126, 127, 128, 129, 200, 1000, 1023] {
+        let p = 2f64.powi(k);
+        fs.push(p);
+        fs.push(f64::from_bits(p.to_bits() + 1));
+        fs.push(f64::from_bits(p.to_bits() - 1));
+    }
+    for e in [9i32, 10, 18, 19, 20, 21, 22, 37, 38, 39, 40, 45, 100, 300, 308] {
+        fs.push(format!("1e{}", e).parse().unwrap());
+        fs.push(format!("3.5e{}", e - 1).parse().unwrap());
+    }
+    fs.push(f64::MAX);
+    fs.push(3.4028234663852886e38); // f32::MAX
+    fs.push(3.4028235677973366e38); // first double that rounds to f32 infinity
+    let mut out: Vec<Value> = Vec::new();
+    for f in fs {
+        out.push(json!(f));
+        out.push(json!(-f));
+    }
+    for s in ["127", "128", "255", "256", "32767", "32768", "65535", "65536", "2147483647", "2147483648", "4294967295", "4294967296",
+              "9007199254740991", "9007199254740992", "9007199254740993", "9223372036854775807", "9223372036854775808",
+              "18446744073709551615", "-128", "-129", "-32768", "-32769", "-2147483648", "-2147483649",
+              "-9007199254740993", "-9223372036854775808", "-9223372036854775807"] {
+        out.push(parse(s));
+    }
+    dedup(out)
+}
+
+/// Values whose rendering (JSON text, string form, error message) is long and made of multi-byte
+/// characters at every byte alignment: any byte-indexed cut (truncation to 16 / 32 / 64 / 80 / 128 /
+/// 255 ... bytes, fixed-size buffers) lands inside a character for one member of each family.
+pub fn long_render_values() -> Vec<Value> {
+    let mut out = Vec::new();
+    for (ch, w) in [('é', 2usize), ('水', 3), ('😀', 4)] {
+        for p in 0..w {
+            let s: String = "a".repeat(p) + &ch.to_string().repeat(100);
+            out.push(json!(s));
+            out.push(json!({"k": s, "n": 1}));
+            out.push(json!({s.clone(): 1, "n": 2}));
+            out.push(json!([s]));
+            out.push(json!([[s], {"k": s, "j": 2}]));
+        }
+    }
+    out
+}
+
+/// Strings that spell other JSON values (rules, arrays, objects, numbers), bare and padded: a string
+/// is a string wherever it stands, never re-read as the value it spells.
+pub fn stringified() -> Vec<Value> {
+    let mut out = Vec::new();
+    let mut vals = v1();
+    vals.extend(many(&[r#"{"var":"a"}"#, r#"{"==":[1]}"#, "{}", "[]", r#"{"if":[true,"yes","no"]}"#, r#"{"var":""}"#, r#"[{"var":"a"}]"#, r#"{"a":1,"b":2}"#, r#"{"log":"LEAK"}"#, r#"{"+":["x"]}"#]));
+    for v in vals {
+        let t = v.to_string();
+        out.push(json!(t));
+        out.push(json!(format!(" {}", t)));
+        out.push(json!(format!("{}\n", t)));
+        out.push(json!(serde_json::to_string_pretty(&v).unwrap()));
+    }
+    dedup(out)
 }
